@@ -1029,6 +1029,10 @@ def filled_by_loop(rep, fi, name, init, ret, rule, stmt_key, desc):
     return loop.iter, loop.target, append_elt(fi, loop, pos, call), loop
 
 
+def _full_slice(x):
+    return isinstance(x, ast.Slice) and x.lower is None and x.upper is None and x.step is None
+
+
 def check_query(ctx):
     rep, m = ctx.rep, ctx.model
     fi = m.func('gambit.query.query')
@@ -1066,7 +1070,86 @@ def check_query(ctx):
     tn = [x.id for x in tgt.elts] if isinstance(tgt, ast.Tuple) and all(isinstance(x, ast.Name) for x in tgt.elts) else [tgt.id] if isinstance(tgt, ast.Name) else []
     fname = u(it.func) if isinstance(it, ast.Call) else None
     src = None
-    row_of = inp_of = lambda x: False     # noqa: E731
+    note = ''
+    row_of = inp_of = aligned_row = lambda x: False     # noqa: E731
+
+    def row_index(sl, want_):
+        """X[k] / X[k, :] with k the wanted position"""
+        if isinstance(sl, ast.Tuple):
+            if not (len(sl.elts) == 2 and _full_slice(sl.elts[1])):
+                return False
+            sl = sl.elts[0]
+        return not isinstance(sl, ast.Slice) and Aff.try_of(sl) == want_
+
+    NP_ROWWISE = {'numpy.argsort': 'axis', 'numpy.sort': 'axis', 'numpy.argpartition': 'axis', 'numpy.partition': 'axis'}     # default axis -1
+    NP_SAME = ('numpy.asarray', 'numpy.array', 'numpy.ascontiguousarray', 'numpy.asanyarray', 'numpy.copy')
+
+    def row_deriv(x, at_, depth=0):
+        """('aligned' | 'broken' | 'unknown' | 'unrelated', why): is x the distance matrix or derived from it by operations that keep
+        axis 0 - row k of x computed from row k of the matrix alone (ordering / partitioning / sorting along axis 1, column slices
+        [:, ...], array / list conversion, copy)?  'broken': derived, but along the rows (axis 0 / None), transposed, or from a row
+        slice / permutation.  'unrelated': the matrix does not occur in it."""
+        if is_matrix(x):
+            return 'aligned', 'the matrix'
+        if depth > 6:
+            return 'unknown', 'derivation too deep'
+        if isinstance(x, ast.Name):
+            d = reaching_def(fi.node, x.id, at_)
+            v = def_value(d) if d not in (None, PARAM, AMBIGUOUS) else None
+            if v is None:
+                if mvar is not None and x.id == mvar:
+                    return 'unknown', f'{mvar} is rebound'
+                if d is not AMBIGUOUS:
+                    return 'unrelated', ''
+                # bound on several paths: unrelated when no binding has anything to do with the matrix
+                vals = [(s_.value, s_) for s_ in stmts_in(fi.node.body) if isinstance(s_, (ast.Assign, ast.AnnAssign, ast.AugAssign)) and s_.value is not None
+                        and any(isinstance(t, ast.Name) and t.id == x.id for tt in (s_.targets if isinstance(s_, ast.Assign) else [s_.target]) for t in ast.walk(tt))]
+                if vals and all(row_deriv(v_, s_, depth + 1)[0] == 'unrelated' for v_, s_ in vals):
+                    return 'unrelated', ''
+                return 'unknown', f'{x.id} is bound on several paths'
+            return row_deriv(v, d, depth + 1)
+        if mvar is None or mvar not in names_in(x) and not any(row_deriv(n, at_, depth + 1)[0] != 'unrelated' for n in ast.walk(x) if isinstance(n, ast.Name) and isinstance(n.ctx, ast.Load) and n.id != mvar):
+            return 'unrelated', ''
+        if isinstance(x, ast.Subscript):
+            st_, why = row_deriv(x.value, at_, depth + 1)
+            if st_ != 'aligned':
+                return st_, why
+            sl = x.slice
+            first = sl.elts[0] if isinstance(sl, ast.Tuple) and sl.elts else sl
+            if _full_slice(first) or first is Ellipsis:
+                return 'aligned', 'column selection'
+            if isinstance(first, ast.Slice) or isinstance(first, (ast.Constant, ast.UnaryOp)):
+                return 'broken', f'rows selected / reordered by [{u(sl)}]'
+            return 'unknown', f'index [{u(sl)}]'
+        if isinstance(x, ast.Attribute) and x.attr == 'T':
+            st_, why = row_deriv(x.value, at_, depth + 1)
+            return ('broken', 'transposed') if st_ == 'aligned' else (st_, why)
+        if isinstance(x, ast.Call) and not any(isinstance(a, ast.Starred) for a in x.args) and all(k.arg is not None for k in x.keywords):
+            r = m.resolve(fi.module, x.func)
+            recv = None
+            if r in NP_ROWWISE and x.args:
+                recv, axis = x.args[0], get_arg(x, 1 if r in ('numpy.argsort', 'numpy.sort') else 2, 'axis')
+                meth = r
+            elif isinstance(x.func, ast.Attribute) and x.func.attr in ('argsort', 'argpartition') and r is None:
+                recv, axis = x.func.value, get_arg(x, 0 if x.func.attr == 'argsort' else 1, 'axis')
+                meth = x.func.attr
+            if recv is not None:
+                st_, why = row_deriv(recv, at_, depth + 1)
+                if st_ != 'aligned':
+                    return st_, why
+                if axis is None or (isinstance(axis, ast.Constant) and axis.value in (1, -1)) or (isinstance(axis, ast.UnaryOp) and u(axis) == '-1'):
+                    return 'aligned', f'{meth} along each row'
+                if isinstance(axis, ast.Constant) and (axis.value == 0 or axis.value is None):
+                    return 'broken', f'{meth} along axis {axis.value}: row k no longer comes from row k of the matrix'
+                return 'unknown', f'{meth} with axis={u(axis)}'
+            if (r in NP_SAME or u(x.func) in ('list', 'tuple')) and len(x.args) >= 1:
+                return row_deriv(x.args[0], at_, depth + 1)
+            if isinstance(x.func, ast.Attribute) and x.func.attr in ('copy', 'astype', 'tolist') and r is None:
+                return row_deriv(x.func.value, at_, depth + 1)
+            if r in ('numpy.transpose',):
+                st_, why = row_deriv(x.args[0], at_, depth + 1) if x.args else ('unknown', '')
+                return ('broken', 'transposed') if st_ == 'aligned' else (st_, why)
+        return 'unknown', f'`{u(x)[:60]}` is derived from the matrix by an operation the rule does not know'
     if fname == 'enumerate' and len(tn) == 2 and 1 <= len(it.args) <= 2 and not any(isinstance(a, ast.Starred) for a in it.args) and all(k.arg == 'start' for k in it.keywords):
         start = Aff.try_of(it.args[1] if len(it.args) == 2 else get_kw(it, 'start') if it.keywords else ast.Constant(value=0))
         rep.require(start is not None, f'query: enumerate start {u(it)} is not affine')
@@ -1074,37 +1157,58 @@ def check_query(ctx):
         want = Aff({tn[0]: 1}).sub(start)
 
         def row_of(x):
-            if not (isinstance(x, ast.Subscript) and is_matrix(x.value)):
-                return False
-            sl = x.slice
-            if isinstance(sl, ast.Tuple):
-                if not (len(sl.elts) == 2 and isinstance(sl.elts[1], ast.Slice) and sl.elts[1].lower is None and sl.elts[1].upper is None and sl.elts[1].step is None):
-                    return False
-                sl = sl.elts[0]
-            return not isinstance(sl, ast.Slice) and Aff.try_of(sl) == want
+            return isinstance(x, ast.Subscript) and is_matrix(x.value) and row_index(x.slice, want)
 
         def inp_of(x):
             return isinstance(x, ast.Name) and x.id == tn[1]
+
+        def aligned_row(x):
+            return isinstance(x, ast.Subscript) and row_deriv(x.value, at)[0] == 'aligned' and row_index(x.slice, want)
         pairing = f'position counter {tn[0]} from {u(it)}'
-    elif (fname == 'zip' or (isinstance(it, ast.Call) and m.resolve_call(fi, it) == 'gambit.util.misc.zip_strict')) and len(tn) == 2 and len(it.args) == 2 \
+    elif (fname == 'zip' or (isinstance(it, ast.Call) and m.resolve_call(fi, it) == 'gambit.util.misc.zip_strict')) and len(it.args) >= 2 and len(tn) == len(it.args) \
             and not any(isinstance(a, ast.Starred) for a in it.args) and all(k.arg == 'strict' for k in it.keywords):
-        ks = [k for k in (0, 1) if is_matrix(it.args[k])]
-        if len(ks) == 1:
-            k = ks[0]
-            src = it.args[1 - k]
+        # one operand is the matrix, one the inputs; any further operand must be a ROW-ALIGNED derivation of the same matrix (row k of
+        # it is computed from row k of the matrix alone), so that all targets of one iteration belong to the same query
+        kinds = [row_deriv(a, at) for a in it.args]
+        ks = [k for k, a in enumerate(it.args) if is_matrix(a)]
+        broken = [f'{u(a)}: {kd[1]}' for a, kd in zip(it.args, kinds) if kd[0] == 'broken']
+        unknown = [f'{u(a)}: {kd[1]}' for a, kd in zip(it.args, kinds) if kd[0] == 'unknown']
+        others = [k for k, kd in enumerate(kinds) if kd[0] == 'unrelated']
+        if broken:
+            note = f'operand not row-aligned with the matrix: {broken}'
+        elif len(ks) == 1:
+            rep.require(not unknown, f'query: zip operand `{(unknown or [""])[0][:120]}` - cannot show that it is a row-aligned derivation of the distance matrix')
+            rep.require(len(others) == 1, f'query: {u(it)[:80]} has {len(others)} operands that are neither the matrix nor derived from it (expected exactly the inputs)')
+            k, ki = ks[0], others[0]
+            src = it.args[ki]
+            extra_targets = {tn[j] for j in range(len(tn)) if j not in (k, ki)}
 
             def row_of(x):
                 return isinstance(x, ast.Name) and x.id == tn[k]
 
             def inp_of(x):
-                return isinstance(x, ast.Name) and x.id == tn[1 - k]
+                return isinstance(x, ast.Name) and x.id == tn[ki]
+
+            def aligned_row(x):
+                return isinstance(x, ast.Name) and x.id in extra_targets
         pairing = f'lock-step iteration {u(it)}'
     else:
-        rep.require(False, f'query: items are built over `{u(it)[:80]}`: neither enumerate(<inputs>) nor zip(<inputs>, <matrix>)')
+        rep.require(False, f'query: items are built over `{u(it)[:80]}`: neither enumerate(<inputs>) nor zip(<inputs>, <matrix>, ...)')
     rep.add('A4', fi.site(lc), 'one result item per input, in input order (no filter)', src is not None or fname == 'zip', expected='enumerate(<inputs>) / zip(<inputs>, <distance matrix>)', found=u(it), stmt='items enumerate')
-    oke = isinstance(e, ast.Call) and m.resolve_call(fi, e) == 'gambit.query.get_result_item' and len(e.args) == 4 and not e.keywords and u(e.args[0]) == dbp
-    rep.add('A4', fi.site(lc), 'item k is built from row k of the distance matrix and input k (same position)', oke and src is not None and row_of(e.args[2]) and inp_of(e.args[3]),
-            expected=f'get_result_item({dbp}, params, <row k of the matrix>, <input k>)', found=f'{u(e)} via {pairing}', stmt='row/input pairing')
+    oke = isinstance(e, ast.Call) and m.resolve_call(fi, e) == 'gambit.query.get_result_item' and len(e.args) >= 4 and not any(isinstance(a, ast.Starred) for a in e.args) \
+        and all(k.arg is not None for k in e.keywords) and u(e.args[0]) == dbp
+    # further operands of the item call: row k of a row-aligned derivation, or values that do not come from the matrix at all
+    extra_bad = []
+    if oke and src is not None:
+        for x in list(e.args[4:]) + [k.value for k in e.keywords]:
+            if aligned_row(x):
+                continue
+            loose = [n for n in ast.walk(x) if isinstance(n, ast.Name) and isinstance(n.ctx, ast.Load) and n.id not in tn and row_deriv(n, at)[0] != 'unrelated']
+            if loose:
+                extra_bad.append(f'{u(x)}: uses {sorted({n.id for n in loose})} as a whole, not its row k')
+    rep.add('A4', fi.site(lc), 'item k is built from row k of the distance matrix and input k (same position)', oke and src is not None and row_of(e.args[2]) and inp_of(e.args[3]) and not extra_bad,
+            expected=f'get_result_item({dbp}, params, <row k of the matrix>, <input k>[, <row k of a row-aligned derivation>])', found=f'{u(e)} via {pairing}' + (f'; {note}' if note else '') + (f'; {extra_bad}' if extra_bad else ''),
+            stmt='row/input pairing')
     rep.require(src is not None, f'query: no operand of {u(it)} is the distance matrix')
     src_root = align.source(m, fi, *deref(fi, src, at))[0]
     rows_root = align.source(m, fi, *deref(fi, mc.args[0], mst))[0]
@@ -1519,6 +1623,11 @@ _CMD_NEW = ("\t\tinputs = [QueryInput(id) for id in sigs.ids]\n\n\telse:\n"
             "\t\tinputs = [@QI@ in @ZIP@]\n"
             "\t\tsigs = calc_file_signatures(db.signatures.kmerspec, @F@, progress=pconf.update(desc='Parsing input'), max_workers=cores)\n\n"
             "\texporter.export(output, query(db, sigs, params, inputs=inputs, progress=pconf))\n")
+_RANK_OLD = "\twith iter_progress(inputs, pconf, desc='Classifying') as inputs_iter:\n" + _ITEMS_W_OLD
+_RANK_NEW = ("\tranked = @R@\n\twith iter_progress(inputs, pconf, desc='Classifying') as inputs_iter:\n"
+             "\t\titems = [get_result_item(db, params, dists, input, closest=@C@) for @T@ in @Z@]\n")
+_RANK_ALSO = ((_Q, "dists: np.ndarray, input: QueryInput) -> QueryResultItem:", "dists: np.ndarray, input: QueryInput, closest=None) -> QueryResultItem:"),
+              (_Q, "for i in np.argsort(dists, kind='stable')[:params.report_closest]]", "for i in (np.argsort(dists, kind='stable')[:params.report_closest] if closest is None else closest)]"))
 VARIANTS = [
     V('zip for zip_strict', 'B', _Q, "for label, file in zip_strict(file_labels, files)]", "for label, file in zip(file_labels, files)]", 'A3'),
     V('files sorted in query_parse', 'B', _Q, "\tquery_sigs = calc_file_signatures(db.signatures.kmerspec, files, **parse_kw)", "\tquery_sigs = calc_file_signatures(db.signatures.kmerspec, sorted(files), **parse_kw)", 'A3'),
@@ -1715,4 +1824,15 @@ VARIANTS = [
     V('defaultdict seeded with a pre-existing mapping (its lists are shared)', 'B', 'src/gambit/classify.py', "\tmatches = dict()\n", "\tmatches = defaultdict(list, _SEEN)\n", 'A6',
       also=(('src/gambit/classify.py', "\t\t\tmatches.setdefault(match, []).append(i)\n\n\treturn matches\n", "\t\t\tmatches[match].append(i)\n\n\treturn dict(matches)\n"),
             ('src/gambit/classify.py', "from typing import Optional, Iterable, Sequence\n", "from typing import Optional, Iterable, Sequence\nfrom collections import defaultdict\n\n_SEEN = {}\n"))),
+    # ---- fifth pass: further zip operands that are row-aligned derivations of the distance matrix (ranking done once for all rows)
+    V('E: ranking of all rows at once, zipped in lock step with inputs and rows', 'E', _Q, _RANK_OLD, _RANK_NEW.replace('@R@', "np.argsort(dmat, axis=1, kind='stable')[:, :params.report_closest]").replace('@Z@', 'zip_strict(inputs_iter, dmat, ranked)').replace('@T@', 'input, dists, closest').replace('@C@', 'closest'), also=_RANK_ALSO),
+    V('E: ranking through the argsort method and an array copy, plain zip, operands in another order', 'E', _Q, _RANK_OLD, _RANK_NEW.replace('@R@', "np.asarray(dmat.argsort(axis=-1, kind='stable'))").replace('@Z@', 'zip(ranked, inputs_iter, dmat)').replace('@T@', 'closest, input, dists').replace('@C@', 'closest[:params.report_closest]'), also=_RANK_ALSO),
+    V('E: ranking of all rows at once, row picked by the position counter', 'E', _Q, _RANK_OLD, _RANK_NEW.replace('@R@', "np.argsort(dmat, axis=1, kind='stable')[:, :params.report_closest]").replace('@Z@', 'enumerate(inputs_iter)').replace('@T@', 'i, input').replace('dists, input', 'dmat[i, :], input').replace('@C@', 'ranked[i]'), also=_RANK_ALSO),
+    V('ranking computed along axis 0 (each column ordered on its own)', 'B', _Q, _RANK_OLD, _RANK_NEW.replace('@R@', "np.argsort(dmat, axis=0, kind='stable')[:, :params.report_closest]").replace('@Z@', 'zip_strict(inputs_iter, dmat, ranked)').replace('@T@', 'input, dists, closest').replace('@C@', 'closest'), 'A4', also=_RANK_ALSO),
+    V('ranking computed from the matrix with its rows reversed', 'B', _Q, _RANK_OLD, _RANK_NEW.replace('@R@', "np.argsort(dmat[::-1], axis=1, kind='stable')[:, :params.report_closest]").replace('@Z@', 'zip_strict(inputs_iter, dmat, ranked)').replace('@T@', 'input, dists, closest').replace('@C@', 'closest'), 'A4', also=_RANK_ALSO),
+    V('ranking computed from the matrix without its first row (shifted by one query)', 'B', _Q, _RANK_OLD, _RANK_NEW.replace('@R@', "np.argsort(dmat[1:], axis=1, kind='stable')[:, :params.report_closest]").replace('@Z@', 'zip(inputs_iter, dmat, ranked)').replace('@T@', 'input, dists, closest').replace('@C@', 'closest'), 'A4', also=_RANK_ALSO),
+    V('ranking rows selected after the sort (ranked[::-1])', 'B', _Q, _RANK_OLD, _RANK_NEW.replace('@R@', "np.argsort(dmat, axis=1, kind='stable')[::-1, :params.report_closest]").replace('@Z@', 'zip_strict(inputs_iter, dmat, ranked)').replace('@T@', 'input, dists, closest').replace('@C@', 'closest'), 'A4', also=_RANK_ALSO),
+    V('every item gets the ranking of the first row', 'B', _Q, _RANK_OLD, _RANK_NEW.replace('@R@', "np.argsort(dmat, axis=1, kind='stable')[:, :params.report_closest]").replace('@Z@', 'zip_strict(inputs_iter, dmat, ranked)').replace('@T@', 'input, dists, closest').replace('@C@', 'ranked[0]'), 'A4', also=_RANK_ALSO),
+    V('position counter picks the ranking of the next row', 'B', _Q, _RANK_OLD, _RANK_NEW.replace('@R@', "np.argsort(dmat, axis=1, kind='stable')[:, :params.report_closest]").replace('@Z@', 'enumerate(inputs_iter)').replace('@T@', 'i, input').replace('dists, input', 'dmat[i, :], input').replace('@C@', 'ranked[i - 1]'), 'A4', also=_RANK_ALSO),
+    V('three-way zip with the targets of rows and ranking crossed', 'B', _Q, _RANK_OLD, _RANK_NEW.replace('@R@', "np.argsort(dmat, axis=1, kind='stable')[:, :params.report_closest]").replace('@Z@', 'zip_strict(inputs_iter, ranked, dmat)').replace('@T@', 'input, dists, closest').replace('@C@', 'closest'), 'A4', also=_RANK_ALSO),
 ]
